@@ -1,5 +1,6 @@
 import TR.Model.Common
 import TR.Model.Bulkhead
+import TR.Model.Budget
 import TR.Model.TimeLimiter
 import TR.Model.Chaos
 import TR.Model.Fallback
@@ -34,6 +35,7 @@ def machineOf (name : String) : Option Machine :=
   | "fallback" => some Fallback.machine
   | "chaos" => some Chaos.machine
   | "timelimiter" => some TimeLimiter.machine
+  | "budget" => some Budget.machine
   | _ => none
 
 structure Run (m : Machine) where
